@@ -358,6 +358,23 @@ def site_oracle(text, stats):
             continue
         r = json.loads(l.split("\t", 1)[1]); n += 1
         stats["o_call_site"] += 1
+        if r["site"] == "public":
+            # C20_stats_accumulate + C20_worker_pattern through the public API: every call's back-offer ends with one
+            # worker's k sleeps (2, 4 ms); recordBackoffInfo adds them to the snapshot's statistics unless k = 0
+            stats["o_stats"] += 1
+            es = sum(sum(2 * 2 ** x for x in range(c["k"])) for c in r["calls"]); et = sum(c["k"] for c in r["calls"])
+            ws, wt = ({"regionMiss": es} if es else {}), ({"regionMiss": et} if et else {})
+            dbl = lambda m: {kk: 2 * vv for kk, vv in m.items()}
+            if (r["stat_sleep"] or {}) != ws or (r["stat_times"] or {}) != wt:
+                fails.append(("C20_stats_accumulate", r, "public Get/BatchGet calls %s on one snapshot (async=%s): statistics sleep %s times %s, expected %s %s" %
+                              ([(c["kind"], c["workers"], c["k"]) for c in r["calls"]], r["async"], r["stat_sleep"], r["stat_times"], ws, wt), "snapshot_stats_lose_worker_sleep"))
+            elif (r["clone_sleep"] or {}) != dbl(ws) or (r["clone_times"] or {}) != dbl(wt):
+                fails.append(("C20_stats_accumulate", r, "SnapshotRuntimeStats.Clone().Merge(stats) is not the double: %s %s" % (r["clone_sleep"], r["clone_times"]), "stats_clone_merge"))
+            elif any(c["err"] or c["values"] != c["workers"] for c in r["calls"]):
+                fails.append(("C20_call_site", r, "public call failed or lost values: %s" % r["calls"], "call_site_result"))
+            if r["async"] and any(c["workers"] > 1 for c in r["calls"]) and not r["async_reqs"]:
+                fails.append(("harness", r, "EnableAsyncBatchGet did not reach the async client API", "harness"))
+            continue
         b, a, k = r["before"], r["after"], r["k"]
         # txn consumers retry on the worker's own back-offer (2, 4 ms); rawkv retries through a nested sendBatch* call
         # that forks again, so every retry sleeps through a fresh closure (2, 2 ms) and is merged up level by level.
@@ -423,7 +440,7 @@ def recorded_trace_check(rec, modelrun):
             res["model_disagreements"] += 1
     try:
         cfgs, seqs, _ = split_seqs("\n".join(lines))
-        st = {k: 0 for k in ("o_budget", "o_step_bounds", "o_longest", "o_cancel", "o_fork_clone_start", "o_merge_exact", "o_api", "o_getters", "o_expo", "o_table", "o_call_site", "o_domain")}
+        st = {k: 0 for k in ("o_budget", "o_step_bounds", "o_longest", "o_cancel", "o_fork_clone_start", "o_merge_exact", "o_api", "o_getters", "o_expo", "o_table", "o_call_site", "o_domain", "o_stats")}
         for sq in seqs:
             res["oracle_failures"] += ["%s@%d: %s" % (n, k, d[:160]) for n, k, d, c in oracles(cfgs, sq, st)]
     except Exception as ex:  # replay files of older formats
@@ -453,7 +470,7 @@ def main(tier, replay):
     env = vlib.goenv(); env["VERIF_SEED"] = str(vlib.SEED); env["VERIF_TIER"] = tier
     okm, modelrun = vlib.build_model("Backoff")
     okg, exe = vlib.go_build("backoff", roots=ROOTS)
-    stats = {k: 0 for k in ("o_budget", "o_step_bounds", "o_longest", "o_cancel", "o_fork_clone_start", "o_merge_exact", "o_api", "o_getters", "o_expo", "o_table", "o_call_site", "o_domain")}
+    stats = {k: 0 for k in ("o_budget", "o_step_bounds", "o_longest", "o_cancel", "o_fork_clone_start", "o_merge_exact", "o_api", "o_getters", "o_expo", "o_table", "o_call_site", "o_domain", "o_stats")}
     mstats, classes, samples, mism, pfails, ofails = {}, {}, [], [], [], []
     distinct = 0
     site_failures = 0
